@@ -17,6 +17,7 @@ import (
 	"fmt"
 	"io"
 	"os"
+	"sort"
 	"strings"
 
 	"golang.org/x/crypto/chacha20poly1305"
@@ -274,6 +275,118 @@ func (m Manifest) JSON() []byte {
 	return sb.Bytes()
 }
 
+// MStyle: a README-conformant way of writing the manifest line (twin of mstyle / manifest_text
+// in coq/C01/Manifest.v): member order, whitespace at every place JSON allows it, escapes of the
+// key name (0 = Go's, 1 = minimal with \/ and literal & < >, 2 = \u00XX for every ASCII byte).
+type MStyle struct {
+	Order []string `json:"order"` // k kw wfk cph np
+	Ws    []byte   `json:"ws,omitempty"`
+	Esc   int      `json:"esc,omitempty"`
+}
+
+// GoStyle is encoding/json's own serialisation of the Manifest struct.
+func GoStyle(kEmpty bool) MStyle {
+	if kEmpty {
+		return MStyle{Order: []string{"kw", "wfk", "cph", "np"}}
+	}
+	return MStyle{Order: []string{"k", "kw", "wfk", "cph", "np"}}
+}
+
+var fieldCoq = map[string]string{"k": "FK", "kw": "FKw", "wfk": "FWfk", "cph": "FCph", "np": "FNp"}
+
+func (s MStyle) Coq() string {
+	fs := make([]string, len(s.Order))
+	for i, f := range s.Order {
+		fs[i] = fieldCoq[f]
+	}
+	return fmt.Sprintf("(mkMstyle %s %s %d)", hx.CoqList(fs), hx.CoqBytes(s.Ws), s.Esc)
+}
+
+func (s MStyle) Name() string {
+	ws := "nows"
+	if len(s.Ws) > 0 {
+		ws = "ws"
+	}
+	return fmt.Sprintf("%s/%s/esc%d", strings.Join(s.Order, ""), ws, s.Esc)
+}
+
+const hexdigits = "0123456789abcdef"
+
+func jsonString(esc int, s string) []byte {
+	out := []byte{'"'}
+	for i := 0; i < len(s); i++ {
+		b := s[i]
+		u := []byte{'\\', 'u', '0', '0', hexdigits[b>>4], hexdigits[b&15]}
+		switch esc {
+		case 1:
+			switch {
+			case b == '"':
+				out = append(out, '\\', '"')
+			case b == '\\':
+				out = append(out, '\\', '\\')
+			case b == '/':
+				out = append(out, '\\', '/')
+			case b < 32:
+				out = append(out, u...)
+			default:
+				out = append(out, b)
+			}
+		case 2:
+			if b < 128 {
+				out = append(out, u...)
+			} else {
+				out = append(out, b)
+			}
+		default:
+			panic("jsonString: style 0 goes through encoding/json")
+		}
+	}
+	return append(out, '"')
+}
+
+// Text writes the manifest line in style s (by hand, not through the package under test).
+func (m Manifest) Text(s MStyle) []byte {
+	w := string(s.Ws)
+	var members []string
+	for _, f := range s.Order {
+		var v string
+		switch f {
+		case "k":
+			if s.Esc == 0 {
+				kb, _ := json.Marshal(m.K)
+				v = string(kb)
+			} else {
+				v = string(jsonString(s.Esc, m.K))
+			}
+		case "kw":
+			v = fmt.Sprint(m.Kw)
+		case "wfk":
+			v = `"` + base64.StdEncoding.EncodeToString(m.Wfk) + `"`
+		case "cph":
+			v = fmt.Sprint(m.Cph)
+		case "np":
+			v = `"` + base64.StdEncoding.EncodeToString(m.Np) + `"`
+		}
+		members = append(members, `"`+f+`"`+w+":"+w+v)
+	}
+	return []byte(w + "{" + w + strings.Join(members, w+","+w) + w + "}" + w)
+}
+
+// GenStyle draws a serialisation style: any member order, optional whitespace, any escape style;
+// the key-name member may be left out only when the name is empty.
+func GenStyle(r *hx.Rand, kEmpty bool) MStyle {
+	fs := []string{"k", "kw", "wfk", "cph", "np"}
+	if kEmpty && r.Bool() {
+		fs = fs[1:]
+	}
+	for i := len(fs) - 1; i > 0; i-- {
+		j := r.Intn(i + 1)
+		fs[i], fs[j] = fs[j], fs[i]
+	}
+	wss := [][]byte{nil, nil, {' '}, {'\t', ' '}, {'\r'}, {' ', ' ', '\t'}}
+	return MStyle{Order: fs, Ws: wss[r.Intn(len(wss))], Esc: r.Intn(3)}
+}
+
 // ParseHeader splits a document into its three header lines and the payload and decodes the
 // manifest with encoding/json into the numeric-id struct.
 func ParseHeader(doc []byte) (m Manifest, manifest, mac, payload []byte, err error) {
@@ -326,6 +439,77 @@ func (t UTable) Coq() string {
 	}
 	return hx.CoqList(items)
 }
+
+// ---------------------------------------------------------------------------------------
+// a toy key vault: wrapping depends on the NAME of the key (and on the algorithm)
+
+var ErrWrap = errors.New("vault: no such key")
+
+// Vault maps a key name to a 32-byte key-encryption key.
+type Vault map[string][]byte
+
+func algTag(alg string, n int) []byte {
+	var out []byte
+	h := sha256.Sum256([]byte("alg:" + alg))
+	for len(out) < n {
+		out = append(out, h[:]...)
+	}
+	return out[:n]
+}
+
+// Wrap: the file key XORed with the named key, followed by an algorithm-dependent trailer that
+// brings the wrapped key to wfkLen bytes.
+func (v Vault) Wrap(fk []byte, alg, name string, wfkLen int) ([]byte, error) {
+	kek, ok := v[name]
+	if !ok {
+		return nil, ErrWrap
+	}
+	out := make([]byte, len(fk))
+	for i := range fk {
+		out[i] = fk[i] ^ kek[i%len(kek)]
+	}
+	if wfkLen > len(out) {
+		out = append(out, algTag(alg, wfkLen-len(out))...)
+	}
+	return out, nil
+}
+
+func (v Vault) Unwrap(wfk []byte, alg, name string) ([]byte, error) {
+	kek, ok := v[name]
+	if !ok || len(wfk) < 32 {
+		return nil, ErrUnwrap
+	}
+	if !bytes.Equal(wfk[32:], algTag(alg, len(wfk)-32)) {
+		return nil, ErrUnwrap
+	}
+	out := make([]byte, 32)
+	for i := range out {
+		out[i] = wfk[i] ^ kek[i%len(kek)]
+	}
+	return out, nil
+}
+
+func (v Vault) Names() []string {
+	ns := make([]string, 0, len(v))
+	for n := range v {
+		ns = append(ns, n)
+	}
+	sort.Strings(ns)
+	return ns
+}
+
+// UTableFor: the unwrap table a recipient vault gives for one wrapped key and algorithm.
+func (v Vault) UTableFor(wfk []byte, alg string) UTable {
+	var t UTable
+	for _, n := range v.Names() {
+		ret, err := v.Unwrap(wfk, alg, n)
+		t = append(t, UEntry{Wfk: wfk, Alg: alg, Kn: n, Ret: ret, Err: err != nil})
+	}
+	return t
+}
+
+var CanonAlg = map[string]string{"A256KW": "A256KW", "A128CBC-NOPAD": "A128CBC-NOPAD", "A192CBC-NOPAD": "A192CBC-NOPAD",
+	"A256CBC-NOPAD": "A256CBC-NOPAD", "RSA-OAEP-256": "RSA-OAEP-256", "AES": "A256KW", "RSA": "RSA-OAEP-256"}
 
 // ---------------------------------------------------------------------------------------
 // independent encoder of the published format (README.md), on Go's standard crypto
@@ -395,8 +579,11 @@ func SpecSegments(cph int, fk, np, p []byte) [][]byte {
 	return segs
 }
 
-func SpecEncrypt(m Manifest, fk, p []byte) []byte {
-	doc := SpecHeader(fk, m.JSON())
+func SpecEncrypt(m Manifest, fk, p []byte) []byte { return SpecEncryptStyle(m, GoStyle(m.K == ""), fk, p) }
+
+// SpecEncryptStyle: the document with its manifest line written in style sty.
+func SpecEncryptStyle(m Manifest, sty MStyle, fk, p []byte) []byte {
+	doc := SpecHeader(fk, m.Text(sty))
 	for _, s := range SpecSegments(m.Cph, fk, m.Np, p) {
 		doc = append(doc, s...)
 	}
@@ -473,24 +660,28 @@ type EncResult struct {
 	Status   string
 	Known    bool
 	Fk, Np   []byte
-	Wfk      []byte
+	Wfk      []byte // what the vault returned (nil when the wrap failed or was never called)
 	WrapAlg  string
 	WrapKn   string
 	Wrapped  bool
 	HeaderOK bool
+	vault    Vault
+	alg      string
+	wfkLen   int
 }
 
-// RunEncrypt drives Encrypt over a scripted source; the wrap callback records the file key and
-// returns wfk.
-func RunEncrypt(o Opts, data []byte, sc SItems, wfk []byte, cr *hx.Rand) EncResult {
-	var res EncResult
-	res.Wfk = wfk
+// RunEncrypt drives Encrypt over a scripted source; the wrap callback is the vault (it records
+// the file key it is given).
+func RunEncrypt(o Opts, data []byte, sc SItems, vault Vault, wfkLen int, cr *hx.Rand) EncResult {
+	res := EncResult{vault: vault, alg: CanonAlg[o.Alg], wfkLen: wfkLen}
 	eo := enc.EncryptOptions{
 		KeyName: o.KeyName, Algorithm: enc.KeyAlgorithm(o.Alg), DecryptionKeyName: o.DecKeyName, OmitKeyName: o.Omit,
 		WrapKeyFn: func(plaintextKey []byte, algorithm, keyName string, nonce []byte) ([]byte, []byte, error) {
 			res.Fk = append([]byte(nil), plaintextKey...)
 			res.WrapAlg, res.WrapKn, res.Wrapped = algorithm, keyName, true
-			return append([]byte(nil), wfk...), nil, nil
+			w, err := vault.Wrap(plaintextKey, algorithm, keyName, wfkLen)
+			res.Wfk = w
+			return w, nil, err
 		},
 	}
 	if o.Cipher != nil {
@@ -519,11 +710,18 @@ func (r EncResult) CoqObs() string {
 	return fmt.Sprintf("(EOStream %s %s)", OBytes(r.Doc), r.Status)
 }
 
-func (r EncResult) CoqWrapArgs() string {
-	if !r.Wrapped {
-		return "None"
+// CoqWTable: the vault as the model sees it - for the file key Encrypt drew and the un-aliased
+// algorithm, the wrapped key under every name the vault knows.
+func (r EncResult) CoqWTable() string {
+	if !r.Wrapped || r.alg == "" {
+		return "[]"
 	}
-	return fmt.Sprintf("(Some (%s, %s))", hx.CoqString(r.WrapAlg), hx.CoqString(r.WrapKn))
+	var items []string
+	for _, n := range r.vault.Names() {
+		w, _ := r.vault.Wrap(r.Fk, r.alg, n, r.wfkLen)
+		items = append(items, fmt.Sprintf("(%s, %s, %s)", hx.CoqString(r.alg), hx.CoqString(n), hx.CoqBytes(w)))
+	}
+	return hx.CoqList(items)
 }
 
 // DecResult: what Decrypt was observed to do.
